@@ -33,6 +33,14 @@ CLAIMS = {
  "C16": ("model_checking",
          "Stores.tla (token/stateful.go over an explicit file-system model with editors' tags, an external editor and a crash between any two file-system steps) is checked exhaustively against E1-E4; TLC-simulated and seeded behaviours (library calls, external edits, restarts, a crash at each of the six named points of add()/rewrite() executed in a child process) run on the real token package with an independent reader after every step, plus parallel read-tag/conditional-write editors; Trace_Stores judges.",
          "library level; successive file versions are made distinguishable as the property assumes; process crashes only, no power loss"),
+ "C11": ("model_checking", SIG + " C11 clauses: an unauthorised or spoofed stimulus has no effect beyond a refusal to its sender; tokens are created/edited/listed only within the creator's rights and group.",
+         "sequential driver with a quiescence barrier after every stimulus; rights are those the server told each client; WHIP is covered by C17"),
+ "C12": ("exploration", "Systematic enumeration with the model as the source of the alphabet: every message type/kind of Signalling.tla's alphabet in five membership states with independently ill-typed fields, raw garbage, the regression behaviours of F2/F13/F14, executed against the real server in a child process; a dead process (R1), a request without response (R2), a closed bystander (R3) is a violation.  HTTP and packet-parser tables are added by httpapi.py / rewrite.py.",
+         "crash-freedom only for the enumerated and sampled inputs; this is exploration, not proof", "enumeration from the TLA+ alphabet + black-box execution"),
+ "C14": ("model_checking", SIG + " C14 clauses: user events only to members, no duplicate add / unknown delete, no cross-group leak, the server's own member list equals what clients were told, and at quiescence every member's view equals the membership with usernames and permissions.",
+         "sequential driver: reordering of the detached change broadcasts (F15) is not exercised"),
+ "C15": ("model_checking", SIG + " C15 clauses: source/username authentic, privileged flag = sender is operator, recipients exactly as addressed, noecho, spoof rejected and closes only the offender, history replay to a joiner equals the last <=50 broadcast chats minus what clearchat designated.",
+         "history age is not exercised (only the count bound)"),
 }
 REASON_DEFAULT = "check under construction (not yet registered); see DESIGN.md section 5"
 NA = {}
